@@ -226,22 +226,26 @@ theorem step_vinv {s s' : State} {e : Ev} (hi : Inv s) (hv : VInv s) (h : step s
   | cas t exp new ord =>
     simp only [step] at h
     split at h
-    · exact applyWrite_vinv hi hv (by intro hc; cases hc) h
+    · split at h
+      · cases h
+      · exact applyWrite_vinv hi hv (by intro hc; cases hc) h
     · cases h
   | st t new ord =>
     simp only [step] at h
     split at h
     · rename_i hc
       split at h
-      · rename_i ho
-        exact applyWrite_vinv hi hv (fun _ => ⟨hc.2, ho⟩) h
       · cases h
+      · split at h
+        · rename_i ho
+          exact applyWrite_vinv hi hv (fun _ => ⟨hc.2, ho⟩) h
+        · cases h
     · cases h
   | call t c =>
     simp only [step] at h
     split at h
     · cases h
-    · cases c <;> simp only at h <;> split at h <;> first | (cases h; exact ⟨hv.v1, hv.v3⟩) | cases h
+    · cases c <;> simp only at h <;> first | (cases h; exact ⟨hv.v1, hv.v3⟩) | (split at h <;> first | (cases h; exact ⟨hv.v1, hv.v3⟩) | cases h)
   | ret t ok =>
     simp only [step] at h
     split at h
@@ -259,13 +263,20 @@ theorem step_vinv {s s' : State} {e : Ev} (hi : Inv s) (hv : VInv s) (h : step s
     · split at h
       · cases h; exact ⟨hv.v1, hv.v3⟩
       · cases h
+    · split at h
+      · cases h; exact ⟨hv.v1, hv.v3⟩
+      · cases h
   | annAcq t l =>
     simp only [step] at h
+    split at h
+    · cases h
     split at h
     · cases h; exact ⟨hv.v1, hv.v3⟩
     · cases h
   | annRel t l =>
     simp only [step] at h
+    split at h
+    · cases h
     split at h
     · cases h; exact ⟨hv.v1, hv.v3⟩
     · cases h
